@@ -1,6 +1,7 @@
 import Driver.Latch
 import Driver.LockFam
 import Driver.Barrier
+import Driver.HB
 import Driver.Deferred
 import Driver.Trigger
 import Driver.TripWire
@@ -11,6 +12,7 @@ def comps : List Comp := [LatchD.comp, LockFamD.comp, BarrierD.comp, DeferredD.c
 
 def main (args : List String) : IO UInt32 := do
   match args with
+  | ["hb"] => Driver.HBD.run
   | [name] =>
       match comps.find? (·.name == name) with
       | some c => runComp c
